@@ -21,9 +21,9 @@ ASSUMPTIONS = [
     "reference matcher + hand-written operand table are the trusted base",
     "listings <= 12 instructions; windows <= 5 instructions",
 ]
-LEVELS = ["inst", "inst", "operand", "operand", "deref-or", "or-prefix", "anyorder-dup", "anyorder-varlen", "operand-deref-mix", "operand-deref-mix", "same-op-nested"]
+LEVELS = ["inst", "inst", "operand", "operand", "deref-or", "or-prefix", "anyorder-dup", "anyorder-varlen", "operand-deref-mix", "operand-deref-mix", "same-op-nested", "operand-or-hexh"]
 MUTATORS = ["none", "none", "none", "insert-copy", "insert-new", "delete", "replace-copy", "swap", "op-permute", "op-replace"]
-FLOORS = {"level=inst": 0.12, "level=operand": 0.12, "level=deref-or": 0.08, "level=or-prefix": 0.06, "level=anyorder-dup": 0.06, "level=anyorder-varlen": 0.06, "level=operand-deref-mix": 0.08, "level=same-op-nested": 0.05, "deref-inside-operand-operator": 0.02, "expect=found": 0.25, "near-miss": 0.25, "nested": 0.2}
+FLOORS = {"level=inst": 0.12, "level=operand": 0.12, "level=deref-or": 0.08, "level=or-prefix": 0.06, "level=anyorder-dup": 0.06, "level=anyorder-varlen": 0.06, "level=operand-deref-mix": 0.08, "level=same-op-nested": 0.05, "level=operand-or-hexh": 0.04, "deref-inside-operand-operator": 0.02, "expect=found": 0.25, "near-miss": 0.25, "nested": 0.2}
 
 
 def budget(tier):
@@ -246,6 +246,38 @@ def cases(draw, max_depth=2):
         if k + 1 < n and draw(st.booleans()):
             pattern.append(describe_inst(draw, NV[k + 1], full))
             j = k + 2
+    elif level == "operand-or-hexh":
+        # operand-level $or of neighbouring plain alternatives, some written `NNh` (= 0xNN): the spelling must mean inside an
+        # alternative what it means as a lone operand
+        import re as _re
+
+        cands = [(k, q) for k in range(n) for q, o in enumerate(NV[k][2]) if _re.fullmatch(r"0x[0-9a-f]{1,8}", o)]
+        if not cands:
+            L.insert(0, ["0", "mov", ["$0x10", "%eax"], ["0x10", "%eax"]])
+            NV = norm_view(L)
+            n = len(L)
+            cands = [(0, 0)]
+        k, q = draw(st.sampled_from(cands))
+        i, j = k, k + 1
+        val = NV[k][2][q][2:]
+        good = val + "h" if draw(st.integers(0, 2)) else "0x" + val
+        decoys = [d for d in draw(st.lists(st.sampled_from(["20h", "0x30", "7fh", "zz", "rbx", "1h", "10h", "0h", "ffh"]), min_size=1, max_size=3, unique=True)) if d.rstrip("h") != val and d != "0x" + val]
+        alts = list(decoys)
+        if draw(st.integers(0, 5)):
+            alts.insert(draw(st.integers(0, len(alts))), good)
+        pre = []
+        for o in NV[k][2][:q]:
+            from vlib.gen_pattern import describe_operand
+
+            s_ = describe_operand(draw, o, full[1])
+            assume(s_ is not None)
+            pre.append(s_)
+        name = NV[k][1] if full[0] else substr(draw, NV[k][1])
+        assume(alts)
+        pattern = [{name: pre + [{"$or": alts}]}]
+        if k + 1 < n and draw(st.booleans()):
+            pattern.append(describe_inst(draw, NV[k + 1], full))
+            j = k + 2
     else:  # deref-or
         cands = [(k, q) for k in range(n) for q, o in enumerate(NV[k][2]) if parse_norm_mem(o)]
         if not cands:
@@ -323,7 +355,13 @@ def cases(draw, max_depth=2):
             o = draw(st.sampled_from(OPERANDS))
             L[k2][2][q2], L[k2][3][q2] = o[0], o[1]
     renumber()
-    assume(_names_ok(pattern))
+    if level == "operand-or-hexh":
+        # the NNh alternatives are reserved syntax, not literal names: check everything but them
+        head = pattern[0]
+        hn = list(head)[0]
+        assume(_names_ok([{hn: head[hn][:-1]} if head[hn][:-1] else hn] + pattern[1:]))
+    else:
+        assume(_names_ok(pattern))
     return {"level": level, "mut": mut, "listing": L, "pattern": pattern, "flags": list(full)}
 
 
@@ -331,12 +369,50 @@ def strategy(tier):
     return cases(max_depth=2 if tier == "quick" else 3)
 
 
+WIDE = ["push", "mov", "movzx", "add", "sub", "xor", "pop"]
+
+
+def wide_cases():
+    """$and_any_order with 7 children (5040 orderings, ~10 s to compile): too dear for the random campaign, so a fixed handful.
+    Two of the names are substring-related (mov / movzx): under default matching one `movzx` instruction may stand for either
+    child but never for both - 'each child exactly once' is what a per-child lookahead over a window would lose."""
+    def listing(ms):
+        return [[format(0x401000 + 4 * q, "x"), m, [], []] for q, m in enumerate(ms)]
+
+    out = []
+    for tag, ms, kids, flags in [
+        ("all-present-permuted", ["nop", "xor", "movzx", "push", "sub", "mov", "pop", "add", "ret"], WIDE, [False, False]),
+        ("one-child-missing", ["push", "movzx", "nop", "add", "sub", "xor", "pop", "ret"], WIDE, [False, False]),
+        ("longer-name-twice", ["push", "movzx", "movzx", "add", "sub", "xor", "pop"], WIDE, [False, False]),
+        ("longer-name-twice-full", ["push", "movzx", "movzx", "add", "sub", "xor", "pop"], WIDE, [True, False]),
+        ("duplicate-child-once-present", ["push", "mov", "nop", "add", "sub", "xor", "pop"], ["push", "mov", "add", "add", "sub", "xor", "pop"], [False, False]),
+        ("offset-window-then-item", ["pop", "pop", "xor", "sub", "add", "movzx", "mov", "push", "ret"], WIDE, [False, False]),
+    ]:
+        pattern = [{"$and_any_order": list(kids)}] + (["ret"] if tag == "offset-window-then-item" else [])
+        out.append({"level": "anyorder-wide", "mut": "none", "wide": tag, "listing": listing(ms), "pattern": pattern, "flags": flags})
+    return out
+
+
+def _wide_worker(case):
+    return case, evaluate(case)
+
+
+def extra(tier, seed, rep):
+    import multiprocessing as mp
+
+    cs = wide_cases()
+    with mp.get_context("fork").Pool(len(cs), maxtasksperchild=1) as pool:
+        for case, ev in pool.imap_unordered(_wide_worker, cs, chunksize=1):
+            rep.add_eval(case, ev)
+    rep.exhaustive_parts.append(f"{len(cs)} fixed 7-child $and_any_order cases (substring-related names, missing / doubled child)")
+
+
 def evaluate(case):
     ev = Eval()
     ev.subcases = 0
     L, pattern = case["listing"], case["pattern"]
     mn_full, op_full = case["flags"]
-    exp, spans, _ = compare(ev, pattern, L, mn_full, op_full)
+    exp, spans, _ = compare(ev, pattern, L, mn_full, op_full, **({"modes": ("list",)} if case.get("wide") else {}))
     used = _ops_used(pattern, set())
     depth = _depth(pattern)
     ev.tags = [f"level={case['level']}", f"mut={case['mut']}", "expect=found" if exp else "expect=notfound"]
@@ -346,7 +422,9 @@ def evaluate(case):
     if case["level"] == "operand-deref-mix" and any(isinstance(p_, dict) and list(p_)[0] in ("$and", "$and_any_order") and any(isinstance(c_, dict) and "$deref" in c_ for c_ in p_[list(p_)[0]])
                                                     for it in pattern if isinstance(it, dict) for p_ in (it[list(it)[0]] or [])):
         ev.tags.append("deref-inside-operand-operator")
-    near = case["mut"] != "none"
+    if case.get("wide"):
+        ev.tags.append("wide=" + case["wide"])
+    near = case["mut"] != "none" or bool(case.get("wide"))
     if near:
         ev.tags.append("near-miss")
     ev.nontrivial = bool(used) and (exp or near)
